@@ -13,6 +13,7 @@ import (
 	"testing"
 	"time"
 
+	"github.com/andydunstall/piko/pkg/log"
 	"github.com/andydunstall/piko/server/config"
 
 	"verif/harness/vlib"
@@ -33,9 +34,48 @@ func pat(n, salt int) []byte {
 }
 
 type c08Resp struct {
-	status int
-	header http.Header
-	body   []byte
+	status  int
+	header  http.Header
+	trailer http.Header
+	body    []byte
+}
+
+// drawAccessLog draws an access-log configuration: disabled, enabled with no
+// lists, or enabled with an allow list or a block list per direction.
+func drawAccessLog(c *vlib.Case, who string) log.AccessLogConfig {
+	conf := log.AccessLogConfig{Level: "info"}
+	switch c.Weighted("accessLog", []string{"disabled", "plain", "lists", "lists-disabled"}, []int{3, 2, 4, 1}) {
+	case "disabled":
+		conf.Disable = true
+		return conf
+	case "plain":
+		return conf
+	case "lists-disabled":
+		conf.Disable = true
+	}
+	names := []string{"authorization", "cookie", "x-t-a", "X-T-B", "content-type", "x-r-a", "Set-Cookie", "x-piko-endpoint", "x-piko-forward", "X-Tr-A", "user-agent", "host", "location"}
+	pick := func() []string {
+		var o []string
+		for i, k := 0, c.Int("listLen", 1, 4); i < k; i++ {
+			o = append(o, names[c.Pick("listName", len(names))])
+		}
+		return o
+	}
+	switch c.Pick("requestList", 3) {
+	case 1:
+		conf.RequestHeaders.AllowList = pick()
+	case 2:
+		conf.RequestHeaders.BlockList = pick()
+	}
+	switch c.Pick("responseList", 3) {
+	case 1:
+		conf.ResponseHeaders.AllowList = pick()
+	case 2:
+		conf.ResponseHeaders.BlockList = pick()
+	}
+	c.Stepf("access log of %s: disable=%v request allow=%v block=%v response allow=%v block=%v", who, conf.Disable, conf.RequestHeaders.AllowList, conf.RequestHeaders.BlockList, conf.ResponseHeaders.AllowList, conf.ResponseHeaders.BlockList)
+	c.Class("access-log-header-lists")
+	return conf
 }
 
 func sortedCopy(v []string) []string {
@@ -45,14 +85,20 @@ func sortedCopy(v []string) []string {
 }
 
 func TestC08Transparency(t *testing.T) {
-	vlib.SetRule("C08", "TestC08Transparency", "generated requests (7 methods, 0-4 path segments incl. percent-escapes, double and trailing slashes, raw queries, 0-6 end-to-end headers with repeated values / Cookie / Authorization / client X-Forwarded-For / Accept-Encoding, Host with and without port, bodies of 0 B-1 MiB with Content-Length or chunked) and generated response shapes (7 statuses, repeated response headers, bodies 0 B-1 MiB) through a real 2-node cluster, entering at the upstream's node or the other one, upstream = Go SDK http.Serve or the agent reverse proxy in front of a local server; oracle: the upstream recorded exactly the method, request-URI, Host, body and every sent header, the client received exactly the drawn status, headers and body; non-trivial = forwarded path with an escaped segment or a body >= 64 KiB")
+	vlib.SetRule("C08", "TestC08Transparency", "generated requests (7 methods, 0-4 path segments incl. percent-escapes, double and trailing slashes, raw queries, 0-6 end-to-end headers with repeated values / Cookie / Authorization / client X-Forwarded-For / Accept-Encoding, Host with and without port, bodies of 0 B-1 MiB with Content-Length or chunked) and generated response shapes (7 statuses, repeated response headers, bodies 0 B-1 MiB, 0-2 response trailers), a drawn access-log configuration per node and for the agent (disabled, plain, header allow/block lists per direction) through a real 2-node cluster, entering at the upstream's node or the other one, upstream = Go SDK http.Serve or the agent reverse proxy in front of a local server; oracle: the upstream recorded exactly the method, request-URI, Host, body and every sent header, the client received exactly the drawn status, headers, body and trailers; non-trivial = forwarded path with an escaped segment or a body >= 64 KiB")
 	vlib.Run(t, "C08", func(c *vlib.Case) {
 		// half of the clusters protect the proxy port: the client's piko token then
 		// travels in Authorization or in x-piko-authorization (leaving Authorization to the application)
 		withAuth := c.Bool("proxyAuth")
 		keys := TestKeys()
+		// the access log is a documented configuration: which headers it records
+		// (allow list / block list per direction, or nothing at all) must not change
+		// what travels through the proxy
+		serverLog := []log.AccessLogConfig{drawAccessLog(c, "n0"), drawAccessLog(c, "n1")}
+		agentLog := drawAccessLog(c, "agent")
 		cl, err := StartCluster(2, false, func(i int, conf *config.Config) {
 			conf.Proxy.Timeout = 20 * time.Second
+			conf.Proxy.AccessLog = serverLog[i]
 			if withAuth {
 				conf.Proxy.Auth.HMACSecretKey = string(keys.HMAC)
 			}
@@ -70,13 +116,19 @@ func TestC08Transparency(t *testing.T) {
 					w.Header().Add(k, v)
 				}
 			}
+			for k := range want.trailer {
+				w.Header().Add("Trailer", k)
+			}
 			w.WriteHeader(want.status)
 			_, _ = w.Write(want.body)
+			for k, vs := range want.trailer {
+				w.Header()[k] = vs
+			}
 		}
 		// 1-3 sibling upstreams of the endpoint; siblings come and go between requests
 		var ups []*Up
 		connect := func() {
-			u, err := ConnectUpstream(context.Background(), cl.Nodes[0], fmt.Sprintf("u%d", len(ups)), "e1", kind, UpstreamOpts{})
+			u, err := ConnectUpstream(context.Background(), cl.Nodes[0], fmt.Sprintf("u%d", len(ups)), "e1", kind, UpstreamOpts{AccessLog: &agentLog})
 			if err != nil {
 				c.Harnessf("connect: %v", err)
 			}
@@ -111,7 +163,7 @@ func TestC08Transparency(t *testing.T) {
 			return ok && n.Status == "active" && n.Endpoints["e1"] == want
 		}
 		if !Eventually(Deadline(), propagated) {
-			c.Fatalf("C08: endpoint did not propagate to the second node")
+			Missf(c, "C08: endpoint did not propagate to the second node")
 		}
 		seenTotal := func() int {
 			k := 0
@@ -140,7 +192,7 @@ func TestC08Transparency(t *testing.T) {
 					connect()
 				}
 				if !Eventually(Deadline(), propagated) {
-					c.Fatalf("C08: registration change did not settle")
+					Missf(c, "C08: registration change did not settle")
 				}
 				c.Class("sibling-change-between-requests")
 			}
@@ -244,7 +296,16 @@ func TestC08Transparency(t *testing.T) {
 				}
 			}
 			want.header.Set("Content-Type", "application/x-verif")
-			c.Stepf("%s %s via %s host=%s body=%d chunked=%v headers=%v -> want %d respBody=%d respHeaders=%v", method, uri, entry.ID, req.Host, bodyN, chunked, sent, want.status, respN, want.header)
+			// trailers need a body to follow (chunked encoding)
+			if respN > 0 && c.Chance("trailers", 1, 3) {
+				want.trailer = http.Header{}
+				want.trailer.Set("X-Tr-A", c.OneOf("trv", "t1", "sum=abc", ""))
+				if c.Bool("twoTrailers") {
+					want.trailer["X-Tr-B"] = []string{"one", "two"}
+				}
+				c.Class("response-trailers")
+			}
+			c.Stepf("%s %s via %s host=%s body=%d chunked=%v headers=%v -> want %d respBody=%d respHeaders=%v trailers=%v", method, uri, entry.ID, req.Host, bodyN, chunked, sent, want.status, respN, want.header, want.trailer)
 			forwardedPath := entry != cl.Nodes[0]
 			if forwardedPath && (escaped || bodyN >= 65536 || respN >= 65536) {
 				c.NonTrivial()
@@ -311,6 +372,11 @@ func TestC08Transparency(t *testing.T) {
 			for k, vs := range want.header {
 				if got := res.Header.Values(k); !equalStrings(sortedCopy(got), sortedCopy(vs)) {
 					c.Fatalf("C08: response header %s: upstream sent %q, client received %q", k, vs, got)
+				}
+			}
+			for k, vs := range want.trailer {
+				if got := res.Trailer.Values(k); !equalStrings(sortedCopy(got), sortedCopy(vs)) {
+					c.Fatalf("C08: response trailer %s: upstream sent %q, client received %q (all trailers at the client: %v)", k, vs, got, res.Trailer)
 				}
 			}
 			if !bytes.Equal(res.Body, want.body) {
@@ -393,7 +459,7 @@ func TestC08Failures(t *testing.T) {
 			n, ok := cl.Nodes[1].Srv.ClusterState().Node("n0")
 			return ok && n.Endpoints["e1"] == 1
 		}) {
-			c.Fatalf("C08: endpoint did not propagate")
+			Missf(c, "C08: endpoint did not propagate")
 		}
 		entry := cl.Nodes[c.Pick("entry", 2)]
 		c.Header["failure"], c.Header["timeout_ms"], c.Header["entry"], c.Header["upstream_kind"] = fail, timeout.Milliseconds(), entry.ID, kind
